@@ -109,7 +109,7 @@ def foldChar (c : Char) : Char :=
   if 'A' ≤ c ∧ c ≤ 'Z' then Char.ofNat (c.toNat + 32)
   else if c = 'ſ' then 's' else if c = 'K' then 'k' else c
 
-def foldKey (s : String) : String := String.ofList (s.toList.map foldChar)
+def foldKey (s : String) : List Char := s.toList.map foldChar
 
 /-- state of `json.Unmarshal` into `Geometry{Type string; Coordinates interface{}}` while it walks
 the members of the document's object: the two fields and the first saved type error -/
@@ -120,12 +120,12 @@ structure UState (F : Type) where
 
 def unmarshalStep (st : UState F) (kv : String × Tree F) : UState F :=
   let k := foldKey kv.1
-  if k = "type" then
+  if k = "type".toList then
     match kv.2 with
     | .str s => { st with type := s }
     | .null => st                         -- JSON null into a string field: no effect
     | _ => { st with bad := true }        -- UnmarshalTypeError is saved, decoding continues
-  else if k = "coordinates" then { st with coordinates := kv.2 }   -- interface{}: replaced (null → nil)
+  else if k = "coordinates".toList then { st with coordinates := kv.2 }   -- interface{}: replaced (null → nil)
   else st                                  -- unknown members are skipped
 
 /-- `json.Unmarshal(data, &geom)` on an already parsed document -/
